@@ -96,5 +96,6 @@ def run(ctx, facts):
     e = C11.exit_rule(ctx, facts)
     ctx.floor("C10 race loop exits", e, 3)
     C11.store_rules(ctx, facts)
+    C11.store_track(ctx, facts)
     C11.signature_rules(ctx, facts)
     C11.resetbefore(ctx, facts)
